@@ -640,8 +640,9 @@ class Performance(object):
         self.performedparts[index] = pp
 
     def __iter__(self) -> Iterator[PerformedPart]:
-        self.iter_idx = 0
-        return self
+        # a fresh iterator per call: nested or interleaved loops over the same
+        # performance must not share one cursor stored on the performance
+        return iter(self.performedparts)
 
     def __next__(self) -> PerformedPart:
         if self.iter_idx == len(self.performedparts):
